@@ -18,8 +18,9 @@ CONSTANTS
   GroupOns <- L_True
   Acts <- L_Passive
   MaxSteps = 1
+  MaxOff = 5
   Variant = "rk38"
-  Bound = 4096
+  Bound = 1024
   BoundRK = 64
 
 INVARIANT TypeOK
